@@ -44,7 +44,7 @@ CHECKS = {
                      "real code and compared byte-for-byte (timestamps masked) with the reference run of the same call alone in a fresh "
                      "process: full product PYTHONHASHSEED x cwd (two directories with identical schemas, and /) x locale over 270 calls; every "
                      "ordered pair of a 40-call (thorough 80) alphabet in long-lived workers; every ready-handle order of 2 (thorough 3) "
-                     "concurrently scheduled tool tasks on a virtual event loop against the sequential results; histories in which the schema's text is edited between calls (call | edit | call | edit back | call vs fresh processes); two threads over six workload pairs under a preemption-bounded scheduler (sys.monitoring): p=1 at call/return granularity (thorough: line granularity, plus p=2 at call granularity); a packaged schema name shadowed by a different file in cwd B; overwrites that lose several section markers with a common leading number; canonical-mode ejects in every format in an order that would expose serialiser settings leaking between calls; META dicts adding several new keys; cold processes: the first calls of a process interleaved (library imported but never run, one forked child per schedule, p=1 over source lines with at most 3 visits each)",
+                     "concurrently scheduled tool tasks on a virtual event loop against the sequential results; histories in which the schema's text is edited between calls (call | edit | call | edit back | call vs fresh processes); two threads over six workload pairs under a preemption-bounded scheduler (sys.monitoring): p=1 at call/return granularity (thorough: line granularity, plus p=2 at call granularity); a packaged schema name shadowed by a different file in cwd B; overwrites that lose several section markers with a common leading number; canonical-mode ejects in every format in an order that would expose serialiser settings leaking between calls; META dicts adding several new keys; cold processes: the first calls of a process interleaved (library imported but never run, one forked child per schedule, p=1 over source lines with at most 3 visits each); wave 5: calls against schemas with and without a POLICY block and a schema whose field names are separators only, in the configuration matrix and the pair alphabet; the thread scheduler treats a busy fcntl.flock as a visible forced switch",
                 note="timestamps masked by key name; OS-thread interleavings inside one interpreter are not enumerated (DESIGN.md §7)",
                 tech="explicit enumeration of configurations x ordered call pairs x event-loop schedules on the implementation, differential "
                      "against a fresh-process reference (stateless model checking)"),
